@@ -53,7 +53,7 @@ func initClassDeclarationNode() {
 			}
 
 			var superclass ast.ExpressionNode
-			if !args[9].IsUndefined() {
+			if !args[9].IsUndefined() && !args[9].IsNil() {
 				superclass = args[9].MustReference().(ast.ExpressionNode)
 			}
 			var docComment string
